@@ -1325,3 +1325,87 @@ def reserved_api(name, words, position):
     api.options = ["transport=grpc+rest", "autogen-snippets=false"]
     api.info.update(pkg=pkg, version=ver, ns=["vp"], name=name, host=f"{name}.googleapis.com", position=position)
     return api
+
+
+def rand_pattern(rng):
+    """A resource pattern from the grammar of C19."""
+    form = rng.choice(["plain", "plain", "plain", "multi", "dstar", "singleton", "sep", "sep", "camel", "deep"])
+    vars_ = ["project", "location", "shelf", "book", "page", "line", "zone", "alpha_beta", "x1", "item_id"]
+    rng.shuffle(vars_)
+    colls = ["projects", "locations", "shelves", "books", "pages", "lines", "zones", "alphaBetas", "items", "things", "a", "v2data"]
+    rng.shuffle(colls)
+    n = {"plain": rng.randint(1, 3), "multi": rng.randint(4, 6), "dstar": rng.randint(1, 3), "singleton": rng.randint(1, 3),
+         "sep": rng.randint(2, 4), "camel": 2, "deep": 6}[form]
+    segs, used = [], []
+    i = 0
+    while i < n:
+        v = vars_[i]
+        if form == "sep" and i + 1 < n and rng.random() < 0.7:
+            sep = rng.choice(["-", "_", "~", "."])
+            k = 2 if i + 2 >= n or rng.random() < 0.7 else 3
+            group = vars_[i:i + k]
+            segs.append(colls[i] + "/" + sep.join("{%s}" % g for g in group))
+            used += group
+            i += len(group)
+            continue
+        segs.append(colls[i] + "/{%s}" % v)
+        used.append(v)
+        i += 1
+    pat = "/".join(segs)
+    if form == "dstar":
+        pat += "/docs/{path=**}"
+        used.append("path")
+    if form == "singleton":
+        pat += "/" + rng.choice(["config", "settings", "cmekConfig", "state"])
+    return pat, used, form
+
+
+def respath_api(rng, name, npat=36):
+    """Many resource patterns visible to one service (C19): message resources (as field types), file-level
+    resource definitions reached through resource_reference (type and child_type), plus the wildcard."""
+    api = Api(name)
+    tags = api.tags
+    ver = "v1"
+    pkg = f"vp.{name}.{ver}"
+    P = "." + pkg
+    f = File(f"vp/{name}/{ver}/{name}.proto", pkg, deps=list(STD_DEPS))
+    api.add(f)
+    q = f.message("Req")
+    q.field("name", "string")
+    res = []
+    for i in range(npat):
+        pat, used, form = rand_pattern(rng)
+        tn = f"R{chr(97 + i // 26)}{chr(97 + i % 26)}Thing"
+        rtype = f"{name}.googleapis.com/{tn}"
+        how = rng.choice(["message", "message", "definition_ref", "definition_child"])
+        extra = []
+        if rng.random() < 0.3:
+            p2, _, _ = rand_pattern(rng)
+            extra = [p2]          # only the first pattern gets helpers
+        if how == "message":
+            m = f.message(tn)
+            m.resource(rtype, pat, *extra)
+            m.field("name", "string")
+            q.field(f"f_{i}", P + "." + tn)
+        else:
+            f.resource_definition(rtype, pat, *extra)
+            if how == "definition_ref":
+                q.field(f"ref_{i}", "string", ref=rtype)
+            else:
+                q.field(f"ref_{i}", "string", child_ref=rtype)
+        res.append({"type": rtype, "short": tn, "pattern": pat, "vars": used, "form": form, "how": how})
+        tags.update(["form:" + form, "how:" + how])
+    # wildcard pattern
+    m = f.message("WildThing")
+    m.resource(f"{name}.googleapis.com/WildThing", "*")
+    m.field("name", "string")
+    q.field("wild", P + ".WildThing")
+    res.append({"type": f"{name}.googleapis.com/WildThing", "short": "WildThing", "pattern": "*", "vars": [], "form": "wildcard", "how": "message"})
+    o = f.message("Reply")
+    o.field("ok", "bool")
+    s = f.service("Paths", host=f"{name}.googleapis.com")
+    s.rpc("Do", P + ".Req", P + ".Reply")
+    api.info["resources"] = res
+    api.options = ["transport=grpc", "autogen-snippets=false"]
+    api.info.update(pkg=pkg, version=ver, ns=["vp"], name=name, host=f"{name}.googleapis.com")
+    return api
